@@ -38,7 +38,12 @@ func livenessServerDetects(w *World) {
 	r := w.R
 	tcpMux := w.KnobBool("tcp_mux", 40)
 	T := w.KnobPick("server_hb_timeout", 3, 5, 10, 30, 90)
-	scfg := map[string]any{"bindAddr": "10.0.0.1", "bindPort": 7000, "auth": map[string]any{"token": token},
+	how := w.Knob("silence", 0, 3) // 0 just silent, 1 blackholed, 2 sends something else than heartbeats, 3 sends heartbeats that do not verify
+	authCfg := map[string]any{"token": token}
+	if how == 3 {
+		authCfg["additionalScopes"] = []string{"HeartBeats"}
+	}
+	scfg := map[string]any{"bindAddr": "10.0.0.1", "bindPort": 7000, "auth": authCfg,
 		"transport":  map[string]any{"tcpMux": tcpMux, "heartbeatTimeout": T},
 		"allowPorts": []map[string]any{{"start": 20000, "end": 20009}}}
 	env := w.newLcEnv(scfg, token, PeerOpts{Server: "10.0.0.1:7000", Mux: tcpMux, Token: token})
@@ -60,7 +65,6 @@ func livenessServerDetects(w *World) {
 		lastValid = w.Net.Now()
 	}
 	time.Sleep(time.Duration(r.Intn(700)) * time.Millisecond)
-	how := w.Knob("silence", 0, 2) // 0 just silent, 1 blackholed, 2 sends something else than heartbeats
 	switch how {
 	case 1:
 		w.Net.Partition(c.Node, true)
@@ -69,6 +73,15 @@ func livenessServerDetects(w *World) {
 			for !c.IsClosed() {
 				c.Send(tCloseProxy, M{"proxy_name": "nosuch"})
 				time.Sleep(500 * time.Millisecond)
+			}
+		})
+	case 3:
+		badTok := []string{"", "wrong", token + "x"}[r.Intn(3)]
+		pr := newSubRand(w, "badping")
+		c.Node.Go(func() {
+			for !c.IsClosed() {
+				c.Ping(badTok != "", badTok)
+				time.Sleep(time.Duration(200+pr.Intn(800)) * time.Millisecond)
 			}
 		})
 	}
